@@ -188,6 +188,8 @@ pub fn specs(tier: &str, _prop: &str) -> Vec<ExpSpec> {
     for ft in [FatType::Fat12, FatType::Fat16, FatType::Fat32] {
         v.push(ExpSpec::new(vol::tiny_low(ft, 2, 16), alpha::mixed(512), if th { 5 } else { 4 }));
     }
+    // FAT32 cluster numbers above 0xFFFF (high word of the first-cluster field in use)
+    v.push(ExpSpec::new(vol::t32_high(), alpha::mixed(512), if th { 4 } else { 3 }));
     // single FAT copy
     for ft in [FatType::Fat12, FatType::Fat32] {
         if let Some(c) = geometry_cfg(ft, 512, 1, 1, 16, 8) {
